@@ -349,6 +349,13 @@ def control_json():
 def initial_control(identity=None):
     """reset the control block to the state a case starts from (plus the given identity strings) and describe it"""
     reset_control()
+    counters = None
+    if isinstance(identity, dict):          # {'ident': [[id, value]...], 'counters': [nine counter values]}
+        counters, identity = identity.get('counters'), identity.get('ident')
+    if counters:
+        c = MCB.Counter
+        (c.BusMessage, c.BusCommunicationError, c.BusExceptionError, c.SlaveMessage, c.SlaveNoResponse, c.SlaveNAK,
+         c.SlaveBusy, c.BusCharacterOverrun, c.Event) = counters
     if identity:
         for k, v in identity:
             MCB.Identity._ModbusDeviceIdentification__data[k] = v
